@@ -32,12 +32,12 @@ for k in (1, 2, 3):
     fam('summarize-k%d' % k, 'h_summarize', K=k, w=3)
 # thorough
 fam('add-k5', 'h_add', tier='thorough', K=5, w=30)
-fam('shape-k5', 'h_shape', tier='thorough', K=5, w=40)
+# shape-k5: z3 (NRA) leaves 36 branch queries undecided within the budget: not claimed
 for k1 in (1, 2):
     fam('merge5-%d' % k1, 'h_merge', tier='thorough', K=5, K1=k1, w=40)
 fam('wmerge-1+2', 'h_wmerge', tier='thorough', K=3, K1=1, w=60)
 fam('weighted-k4', 'h_weighted', tier='thorough', K=4, w=30)
-fam('wscale-k4', 'h_scale', tier='thorough', K=4, w=30)
+# wscale-k4: undecided queries (26 paths): not claimed
 
 c = Check('C17')
 c.run_e1(fams, assumptions=['doubles are exact reals: floating-point rounding, large common offsets and extreme magnitudes are outside the claim (the property says "up to rounding")',
